@@ -10,6 +10,8 @@ change) by components that only record `write` events; the harness carries the r
      1-3 events in flight over the six routes (client->server through `remote`, server->client through
      Server.send), generated handlers on the receiving side (return / None / raise / generator with a delay /
      no handler), firewalls, segmentations of every byte stream.
+     family 'notify-mix': every sequence of 2-3 sends on ONE server->client connection where each send is a
+     fire-and-forget notification (Server.send(no_result=True) / send_to / send_all) or an awaited call.
   world 'h' (hostile peer, real Manager.run() driven by a generate_events Driver, as in mc/ghost.py):  one victim
      tree (server role with two connections, or client role with two peers); one connection is the harness playing
      a hostile peer (grammar of JSON mutations / metadata / sizes), the other an honest peer.
@@ -42,7 +44,9 @@ LEVEL = 'model_checking'
 RULE = ('case = (world rt) 1-3 events in flight over the 6 routes of a 4-node topology x argument/result shapes and sizes '
         '(up to 70 000 B) x feedback flags x channel x receiving handler behaviour x firewall predicates x segmentation of each byte '
         'stream (every single cut, byte-at-a-time, every-n, cuts around the delimiter and the 4096-byte read boundaries, all pairs '
-        'of cuts in thorough) | (world h) one hostile packet from a grammar (truncation at every offset, non-object JSON, missing/'
+        'of cuts in thorough) + every sequence of 2-3 sends on one server->client connection, each a notification (Server.send '
+        'no_result=True | send_to | send_all) or an awaited call, x peer handler behaviour per event (return / raise / delayed '
+        'generator, distinct results) x 4 segmentations | (world h) one hostile packet from a grammar (truncation at every offset, non-object JSON, missing/'
         'extra keys, wrong JSON type per key, sizes up to 1 MiB, nesting, bad UTF-8, every single metadata key and every pair from '
         'dir(Event()) + the attributes the dispatcher reads) against a victim under the real run() with an honest second peer | '
         '(world ser) dump/load round trips; every case executed once on fresh real objects; non-trivial = anything but a single '
@@ -283,6 +287,10 @@ class Tree:
             w.log.append(('go', tree.name, k))
             ev = w.sent[k]
             info = w.launch[k]
+            if info.get('nr'):
+                # fire and forget: performed by its own event so that the sends of a case reach the connection in case order
+                self.fire(Event.create('tell', k))
+                return
             if info['up']:
                 x = yield self.call(remote(ev, info['peer'], channel=info['ch']))
             else:
@@ -296,6 +304,17 @@ class Tree:
             info = w.launch[k]
             return tree.node.server.send(w.sent[k], tree.socks[info['sockkey']])
 
+        def tell(self, event, k):
+            info = w.launch[k]
+            sock, server = tree.socks[info['sockkey']], tree.node.server
+            w.log.append(('tell', tree.name, k, info['nr']))
+            if info['nr'] == 'send':
+                server.send(w.sent[k], sock, no_result=True)
+            elif info['nr'] == 'send_to':
+                server.send_to(w.sent[k], [sock])
+            else:
+                server.send_all(w.sent[k])
+
         def sentinel(self, event):
             w.log.append(('sentinel', tree.name))
 
@@ -304,6 +323,7 @@ class Tree:
 
         self.root.addHandler(handler('go')(go))
         self.root.addHandler(handler('push')(push))
+        self.root.addHandler(handler('tell')(tell))
         self.root.addHandler(handler('sentinel')(sentinel))
         self.root.addHandler(handler('exception', channel='*')(on_exc))
         for k, beh in enumerate(w.behaviours):
@@ -386,6 +406,7 @@ class Net(BaseWorld):
             info = dict(route_info(e['r']))
             info['ch'] = e.get('ch')
             info['sockkey'] = info['link']
+            info['nr'] = e.get('nr')      # how a fire-and-forget event is sent (None: an awaited call)
             self.launch.append(info)
             if not info['up']:
                 self.sent[k].channels = (e.get('ch') or 'app',)
@@ -413,6 +434,9 @@ class Net(BaseWorld):
         if spec[0] == 'every':
             n = spec[1]
             cuts = range(((pos // n) + 1) * n, pos + len(data), n)
+        elif spec[0] == 'delim':
+            # one read per packet: a cut after every delimiter (+ spec[1] bytes)
+            cuts = sorted({pos + m.end() + spec[1] for m in re.finditer(re.escape(DELIM), data)} & set(range(pos + 1, pos + len(data))))
         else:
             cuts = sorted(o for o in spec[1] if pos < o < pos + len(data))
         segs, last = [], pos
@@ -509,16 +533,9 @@ def stressor(spec, k, phase='result'):
     return 'plain'
 
 
-def judge_rt(spec, w):
-    """-> list of (signature, text)."""
+def judge_wire(allpk):
+    """results only travel back on the link (and direction) a call with that id came in on"""
     bad = []
-    if w.crashed:
-        bad.append(('rt:exception-escaped-tick', 'exception escaped tick(): %s' % w.crashed))
-        return bad
-    log = w.log
-    fw = spec.get('fw', {})
-    allpk = {key: w.packets(key) for key in w.wire}
-    # results only travel back on the link (and direction) a call with that id came in on
     for key, pks in allpk.items():
         opp = key[:-1] + ('d' if key.endswith('u') else 'u')
         calls = [p[1] for p in allpk.get(opp, []) if p[0] == 'call']
@@ -533,6 +550,19 @@ def judge_rt(spec, w):
                                 'a result packet (id %r) was written to node %s, which has no call with that id outstanding on this connection'
                                 % (p[1], dest)))
                     break
+    return bad
+
+
+def judge_rt(spec, w):
+    """-> list of (signature, text)."""
+    bad = []
+    if w.crashed:
+        bad.append(('rt:exception-escaped-tick', 'exception escaped tick(): %s' % w.crashed))
+        return bad
+    log = w.log
+    fw = spec.get('fw', {})
+    allpk = {key: w.packets(key) for key in w.wire}
+    bad.extend(judge_wire(allpk))
     expected_exc = set()
     for k, e in enumerate(spec['events']):
         info = w.launch[k]
@@ -597,8 +627,110 @@ def judge_rt(spec, w):
     return bad
 
 
+def nf_kinds(spec):
+    return ['N' if e.get('nr') else 'C' for e in spec['events']]
+
+
+def nf_position(spec, k):
+    """Where event k stands in a sequence of notifications and awaited calls on one connection."""
+    kinds = nf_kinds(spec)
+    if kinds[k] == 'N':
+        return 'notification'
+    if 'N' in kinds[:k]:
+        return 'notification-then-call'
+    if 'N' in kinds[k + 1:]:
+        return 'call-then-notification'
+    return 'calls-only'
+
+
+def nf_destinations(spec, k):
+    """Nodes that must execute event k: the peer of the connection; for send_all every peer connected to the sending server."""
+    info = route_info(spec['events'][k]['r'])
+    if spec['events'][k].get('nr') == 'send_all':
+        return sorted({c for c, _, s in LINKS if s == info['src']})
+    return [info['dst']]
+
+
+def judge_nf(spec, w):
+    """Family 'notify-mix': every event (notification or call) runs exactly once on (each of) its peer(s), every awaited call
+    resumes its own waiting handler once with ITS event's result and error flag, a notification resumes nobody.
+    -> list of (signature, text)."""
+    bad = []
+    if w.crashed:
+        return [('rt:exception-escaped-tick', 'exception escaped tick(): %s' % w.crashed)]
+    log = w.log
+    bad.extend(judge_wire({key: w.packets(key) for key in w.wire}))
+    kinds = ''.join(nf_kinds(spec))
+    expected_exc = set()
+    calls = [k for k, c in enumerate(kinds) if c == 'C']
+    for k, e in enumerate(spec['events']):
+        info = w.launch[k]
+        name = w.names[k]
+        pos = nf_position(spec, k)
+        beh = e['beh'][0]
+        dsts = nf_destinations(spec, k)
+        tag = 'event %d of the sequence %s on connection %s->%s (%s, %s, peer handler: %s)' % (
+            k, kinds, info['src'], info['dst'], name, 'awaited call' if kinds[k] == 'C' else 'notification via ' + e['nr'], beh)
+        runs = [x for x in log if x[0] == 'run' and x[3] == k]
+        res = [x for x in log if x[0] == 'res' and x[2] == k]
+        elsewhere = [x for x in runs if not (x[1] in dsts and x[2] == 'app')]
+        if elsewhere:
+            bad.append((pos + ':executed-elsewhere', '%s: handler ran at %r' % (tag, [(x[1], x[2]) for x in elsewhere])))
+        executed = True
+        for dst in dsts:
+            good = [x for x in runs if x[1] == dst and x[2] == 'app']
+            if beh == 'raise':
+                expected_exc.add((dst, name))
+            if not good:
+                executed = False
+                bad.append((pos + ':not-executed', '%s: handler on peer %s never ran' % (tag, dst)))
+            elif len(good) > 1:
+                bad.append((pos + ':executed-%d-times' % min(len(good), 2), '%s: handler on peer %s ran %d times' % (tag, dst, len(good))))
+            else:
+                if good[0][4] != 'same':
+                    bad.append((pos + ':arguments-changed', '%s: handler saw %s' % (tag, good[0][4])))
+                if good[0][5] != ['app']:
+                    bad.append((pos + ':channels-changed', '%s: handler saw channels %r' % (tag, good[0][5])))
+        if kinds[k] == 'N':
+            told = [x for x in log if x[0] == 'tell' and x[2] == k]
+            if len(told) != 1:
+                bad.append(('harness:notification-sent-%d-times' % len(told), '%s: the harness sent it %d times' % (tag, len(told))))
+            if res:
+                bad.append((pos + ':resumed-a-waiting-handler', '%s: a handler waiting for it was resumed (%r)' % (tag, res[0][3])))
+            continue
+        if not executed:
+            continue
+        if len(res) == 0:
+            bad.append((pos + ':sender-not-resumed', '%s: executed on the peer, but the sender\'s waiting handler was never resumed' % tag))
+        elif len(res) > 1:
+            bad.append((pos + ':sender-resumed-twice', '%s: waiting handler resumed %d times' % (tag, len(res))))
+        elif beh == 'raise':
+            if not (res[0][4] or res[0][5]):
+                others = [j for j in range(len(kinds)) if j != k and res[0][3] == short(w.results[j], 50)]
+                bad.append((pos + ':error-flag-lost', '%s: handler raised but the sender sees no error flag (got %s%s)'
+                            % (tag, res[0][3], ', the result of event %d' % others[0] if others else '')))
+        else:
+            if res[0][3] != 'expected':
+                others = [j for j in range(len(kinds)) if j != k and res[0][3] == short(w.results[j], 50)]
+                bad.append((pos + ':wrong-result', '%s: sender got %s%s, its own peer handler produced %s'
+                            % (tag, res[0][3], ' (the result of event %d, a %s)' % (others[0], 'notification' if kinds[others[0]] == 'N' else 'call')
+                               if others else '', short(w.results[k], 50))))
+            elif res[0][4] or res[0][5]:
+                bad.append((pos + ':spurious-error-flag', '%s: sender sees an error flag although its handler did not raise' % tag))
+    # nobody but the awaited calls is resumed
+    stray = [x for x in log if x[0] == 'res' and x[2] not in calls]
+    if stray and not any(sig.endswith(':resumed-a-waiting-handler') for sig, _ in bad):
+        bad.append(('notification:resumed-a-waiting-handler', 'waiting handlers resumed for %r, awaited calls are %r' % ([x[2] for x in stray], calls)))
+    for x in log:
+        if x[0] == 'exc' and (x[1], x[3]) not in expected_exc:
+            bad.append(('notify-mix:unexpected-exception:%s' % x[2], 'node %s: a handler for %r raised %s' % (x[1], x[3], x[2])))
+    return bad
+
+
 def run_rt(spec):
     w = Net(spec).run()
+    if spec.get('fam') == 'notify-mix':
+        return w, judge_nf(spec, w)
     return w, judge_rt(spec, w)
 
 
@@ -810,8 +942,46 @@ def cases_firewall(tier):
                             yield {'w': 'rt', 'fam': 'firewall', 'events': evs, 'fw': fw}
 
 
+NF_STYLES = ['send', 'send_to', 'send_all']      # Server.send(event, sock, no_result=True) / send_to(event, [sock]) / send_all(event)
+NF_SEGS = [None, ['every', 1], ['every', 7], ['delim', 0]]
+
+
+def nf_beh(b, kind, k, delay):
+    val = '%s%d' % (kind, k)       # distinct per event of the sequence
+    return {'ret': ['ret', val], 'raise': ['raise', None], 'gen': ['gen', val, delay]}[b]
+
+
+def cases_notify(tier):
+    """Every sequence of 2-3 sends on one server->client connection, each a notification or an awaited call."""
+    segs = NF_SEGS + ([['every', 3], ['delim', 1], ['delim', -1]] if tier == 'thorough' else [])
+    for r in (1, 3, 5) if tier == 'thorough' else (1, 3):      # 1, 5: server S has two connections (send_all reaches both); 3: T has one
+        for n in (2, 3):
+            for kinds in itertools.product('NC', repeat=n):
+                if 'N' not in kinds:
+                    stylesets = [()]
+                elif tier == 'thorough':
+                    stylesets = list(itertools.product(NF_STYLES, repeat=kinds.count('N')))
+                else:
+                    stylesets = [(s,) * kinds.count('N') for s in NF_STYLES]
+                for behs in itertools.product(('ret', 'raise', 'gen'), repeat=n):
+                    for delay in (2,) if tier == 'quick' or 'gen' not in behs else (1, 2, 3):
+                        for styles in stylesets:
+                            it = iter(styles)
+                            evs = []
+                            for k in range(n):
+                                e = ev(r, [k], None, None, None, nf_beh(behs[k], kinds[k], k, delay))
+                                if kinds[k] == 'N':
+                                    e['nr'] = next(it)
+                                evs.append(e)
+                            for seg in segs:
+                                spec = {'w': 'rt', 'fam': 'notify-mix', 'events': evs}
+                                if seg:
+                                    spec['cuts'] = {'%d%s' % (li, d): seg for li in range(3) for d in 'ud'}
+                                yield spec
+
+
 def cases_rt(tier):
-    return itertools.chain(cases_variety(tier), cases_cuts(tier), cases_concurrent(tier), cases_firewall(tier))
+    return itertools.chain(cases_variety(tier), cases_cuts(tier), cases_concurrent(tier), cases_firewall(tier), cases_notify(tier))
 
 
 # ---------------------------------------------------------------------------------------------------
@@ -1260,6 +1430,18 @@ def count(st, spec, w):
                 c['rt_cases_same_call_id_on_two_connections'] += 1
         if any(x[0] == 'fw' and not x[4] for x in w.log):
             c['rt_cases_firewall_rejected_something'] += 1
+        if spec.get('fam') == 'notify-mix':
+            c['rt_notify_mix_cases'] += 1
+            kinds = ''.join(nf_kinds(spec))
+            if re.search('N.*C', kinds):
+                c['rt_cases_notification_sent_before_an_awaited_call'] += 1
+                # the peer answers the notification too: its answer arrives while the later call is still in flight
+                li = spec['events'][0]['r'] // 2
+                if sum(1 for p in w.packets('%du' % li) if p[0] == 'value') > kinds.count('C'):
+                    c['rt_cases_peer_answered_a_notification_sent_before_an_awaited_call'] += 1
+            if any(e.get('nr') == 'send_all' for e in spec['events']) and len(nf_destinations(
+                    spec, next(k for k, e in enumerate(spec['events']) if e.get('nr') == 'send_all'))) > 1:
+                c['rt_cases_send_all_reached_two_connections'] += 1
         if any(sum(len(x) for x in v) > 4096 for v in w.wire.values()):
             c['rt_cases_stream_longer_than_4096'] += 1
         st.transitions += w.rounds
@@ -1316,7 +1498,10 @@ def run(tier, seed, workers):
         st.selfcheck_errors.append('enumeration: %d of %d cases executed' % (st.executions, total))
     probes = [{'w': 'rt', 'fam': 'probe', 'events': [ev(0, [1], None, None, None, ['gen', 'G', 1]), ev(5, [2])],
                'cuts': {'0u': ['every', 7]}},
-              {'w': 'h', 'victim': 'S', 'path': 'call', 'inflight': None, 'cls': 'meta', 'meta': {'zz': 1}}]
+              {'w': 'h', 'victim': 'S', 'path': 'call', 'inflight': None, 'cls': 'meta', 'meta': {'zz': 1}},
+              {'w': 'rt', 'fam': 'notify-mix', 'cuts': {'0d': ['delim', 0], '0u': ['every', 7]}, 'events': [
+                  dict(ev(1, [0], None, None, None, ['gen', 'N0', 2]), nr='send_all'), ev(1, [1], None, None, None, ['ret', 'C1']),
+                  dict(ev(1, [2], None, None, None, ['raise', None]), nr='send')]}]
     for p in probes:
         a = execute(p)[0]
         b = execute(p)[0]
@@ -1327,10 +1512,14 @@ def run(tier, seed, workers):
     st.bounds = {'cases': total, 'events_in_flight': 3, 'routes': NROUTES, 'argument_shapes': len(ARGS), 'handler_behaviours': len(BEHS),
                  'largest_event_bytes': 70000, 'largest_hostile_packet_bytes': 2 ** 20, 'metadata_keys': len(keys) + len(dunders),
                  'metadata_key_pairs': len(keys) * (len(keys) - 1) // 2, 'dispatcher_attributes_compared': len(DISPATCH_ATTRS),
-                 'tick_round_horizon': 60, 'run_iteration_horizon': 40}
+                 'tick_round_horizon': 60, 'run_iteration_horizon': 40, 'notify_mix_sequence_length': 3,
+                 'notify_mix_send_styles': len(NF_STYLES), 'notify_mix_segmentations': len(NF_SEGS) + (3 if tier == 'thorough' else 0)}
     for name in ('rt_cases_with_a_cut_that_fell_inside_the_stream', 'rt_cases_several_events_in_flight',
                  'rt_cases_results_returned_out_of_order', 'rt_cases_same_call_id_on_two_connections',
                  'rt_cases_firewall_rejected_something', 'rt_cases_stream_longer_than_4096', 'hostile_packets_that_were_dispatched',
+                 'rt_cases_notification_sent_before_an_awaited_call',
+                 'rt_cases_peer_answered_a_notification_sent_before_an_awaited_call',
+                 'rt_cases_send_all_reached_two_connections',
                  'hostile_value_packets_that_resumed_a_sender'):
         if not st.counters[name]:
             st.selfcheck_errors.append('vacuity: counter %s is 0' % name)
